@@ -11,7 +11,7 @@ def decor_spec(rng, sync, wrap_ok=True):
          "right": rng.random() < 0.3, "needs": [rng.randint(0, 4) for _ in range(rng.randint(1, 3))],
          "listen": rng.random() < 0.25, "ewma": False, "wrap": []}
     if wrap_ok and rng.random() < 0.35:
-        d["wrap"] = rng.sample(["oncomplete", "onabort", "meta", "custom"], rng.randint(1, 3))
+        d["wrap"] = rng.sample(["oncomplete", "onabort", "meta", "custom", "either", "oncompletemeta", "onabortmeta", "eithermeta"], rng.randint(1, 3))
     # a decorator may implement several of the optional interfaces at once
     d["ewma"] = rng.random() < 0.15
     return d
@@ -25,7 +25,7 @@ def gen_base(rng, sid, family="base", n=None, q=None, refresh="auto", pop=None, 
     pop = rng.random() < 0.25 if pop is None else pop
     nclients = clients if clients is not None else rng.choice([1, 1, 2, 3])
     cfg = {"q": q, "refresh": refresh, "pop": pop, "notifier": rng.random() < 0.7, "width": rng.choice([120, 160, 200]),
-           "delay": False, "outfault": 0, "ctx": False, "autotoo": False}
+           "delay": False, "outfault": 0, "ctx": False, "autotoo": False, "narrow": False}
     progs = [[] for _ in range(nclients)]
     ncols = [rng.choice([0, 1, 1, 2]), rng.choice([0, 0, 1])]
     bars = []
@@ -75,7 +75,12 @@ def gen_base(rng, sid, family="base", n=None, q=None, refresh="auto", pop=None, 
             elif r < 0.7:
                 steps.append({"op": "get", "b": name})
             elif r < 0.8:
-                steps.append({"op": "prio", "b": name, "n": rng.randint(-3, 5), "flag": rng.random() < 0.4})
+                if rng.random() < 0.25:
+                    # a lazy change overtaken by an immediate one from the same client: the later call wins
+                    steps.append([{"op": "prio", "b": name, "n": rng.randint(-3, 5), "flag": True},
+                                  {"op": "prio", "b": name, "n": rng.randint(-3, 5), "flag": False}])
+                else:
+                    steps.append({"op": "prio", "b": name, "n": rng.randint(-3, 5), "flag": rng.random() < 0.4})
             elif r < 0.85:
                 steps.append({"op": "refill", "b": name, "n": rng.randint(0, 2)})
             elif r < 0.9 and total <= 0:
@@ -96,16 +101,21 @@ def gen_base(rng, sid, family="base", n=None, q=None, refresh="auto", pop=None, 
         c = rng.randrange(nclients)
         # SetCurrent may move the counter backwards, which un-completes a bar (outside every
         # property's domain): a bar that uses it is driven by one client, with non-decreasing values
-        seq_bar = any(s["op"] == "setcur" for s in steps)
+        seq_bar = any(not isinstance(s, list) and s["op"] == "setcur" for s in steps)
         if seq_bar:
             seq_bars.add(name)
             lo = 0
             for s in steps:
+                if isinstance(s, list):
+                    continue
                 if s["op"] == "setcur":
                     s["n"] = lo = max(lo, s["n"])
                 elif s["op"] == "incr":
                     lo += s["n"]
         for s in steps:
+            if isinstance(s, list):
+                progs[rng.randrange(nclients)].extend(s)
+                continue
             counter = s["op"] in ("setcur", "incr", "settotal", "trigger")
             progs[c if (seq_bar and counter) else rng.randrange(nclients)].append(s)
         finish[name] = (c, fin)
@@ -163,7 +173,10 @@ def gen_base(rng, sid, family="base", n=None, q=None, refresh="auto", pop=None, 
     for c in range(nclients):
         for _ in range(rng.choice([0, 0, 1, 2])):
             pos = rng.randint(0, len(progs[c]))
-            progs[c].insert(pos, {"op": "write", "line": "T|%d|%d" % (c, nw)})
+            w = {"op": "write", "line": "T|%d|%d" % (c, nw)}
+            if rng.random() < 0.3:
+                w["chunks"] = True   # the text and its line feed arrive in two Write calls
+            progs[c].insert(pos, w)
             nw += 1
     if fault:
         victim = rng.choice([o for o in progs[0] if o["op"] == "add"])
@@ -172,6 +185,8 @@ def gen_base(rng, sid, family="base", n=None, q=None, refresh="auto", pop=None, 
             cfg["outfault"] = rng.randint(1, 3)
         else:
             victim["fault"] = {"kind": kind, "at": rng.randint(1, 4)}
+            if kind == "fill" and rng.random() < 0.3:
+                victim["fault"]["at"] = -rng.randint(1, 3)   # the k-th Fill after the done channel is closed (the final frames)
     if allow_stop and rng.random() < 0.8:
         c = rng.randrange(nclients)
         kind = rng.choice(["shutdown", "cancel"])
@@ -312,10 +327,54 @@ def family(name, rng, sid):
         o["ext"] = rows - len(adds)
         o["extrev"] = rng.random() < 0.3
         return sc
+    if name == "narrow":
+        # a container too narrow for its decorators: they are cut with an ellipsis or not drawn at all, but every one of
+        # them still takes part in its column's width exchange; rows are not parsed (cfg.narrow)
+        sc = gen_base(rng, sid, "narrow", n=rng.randint(2, 4), ext=False, allow_stop=rng.random() < 0.2, fault=rng.random() < 0.15)
+        sc["cfg"]["width"] = rng.choice([1, 2, 4, 8, 12, 16, 24, 32])
+        sc["cfg"]["narrow"] = True
+        # every bar gets a synchronised decorator somewhere, several get two
+        for o in sc["clients"][0]:
+            if o["op"] == "add":
+                for key in ("pre", "app"):
+                    if rng.random() < 0.6:
+                        o.setdefault(key, []).append(decor_spec(rng, True))
+        return sc
     if name == "none":
         return gen_base(rng, sid, "none", refresh="none", allow_stop=rng.random() < 0.3)
     if name == "fault":
         return gen_base(rng, sid, "fault", fault=True)
+    if name == "prio":
+        # many priority changes: immediate, lazy, a lazy one overtaken by an immediate one, equal values
+        sc = gen_base(rng, sid, "prio", n=rng.randint(2, 4), pop=rng.random() < 0.15)
+        w = next(i for i, o in enumerate(sc["clients"][0]) if o["op"] == "wait")
+        bars = [o["b"] for o in sc["clients"][0][:w] if o["op"] == "add"]
+        for _ in range(rng.randint(2, 5)):
+            b = rng.choice(bars)
+            c = rng.randrange(len(sc["clients"]))
+            prog = sc["clients"][c]
+            hi = w if c == 0 else len(prog)
+            lo = 0
+            if c == 0:   # a client cannot wait for its own later Add
+                lo = 1 + next(i for i, o in enumerate(prog) if o["op"] == "add" and o["b"] == b)
+            pos = rng.randint(lo, hi)
+            if rng.random() < 0.4:
+                ops = [{"op": "prio", "b": b, "n": rng.randint(-3, 5), "flag": True}, {"op": "prio", "b": b, "n": rng.randint(-3, 5), "flag": False}]
+            else:
+                ops = [{"op": "prio", "b": b, "n": rng.randint(-3, 5), "flag": rng.random() < 0.4}]
+            prog[pos:pos] = ops
+            if c == 0:
+                w += len(ops)
+        return sc
+    if name == "latefault":
+        # a filler fails while the final frames are drawn (after the done channel is closed); the bars stay in the container
+        sc = gen_base(rng, sid, "latefault", n=rng.randint(2, 4), pop=False)
+        w = next(i for i, o in enumerate(sc["clients"][0]) if o["op"] == "wait")
+        adds = [o for o in sc["clients"][0][:w] if o["op"] == "add"]
+        for o in adds:
+            o.pop("rm", None)
+        rng.choice(adds)["fault"] = {"kind": "fill", "at": -rng.randint(1, 3)}   # at the k-th frame after the done channel is closed
+        return sc
     if name == "stoppop":
         # pop-completed container shut down while bars are at staggered stages: no-pop, remove-on-complete and
         # queued bars make the bar set change in several consecutive shutdown frames
